@@ -237,7 +237,8 @@ func runC01(c *Ctx) {
 			w.line(c, fmt.Sprintf("setup %s %s", svc, hx(initPackage(id, id, key, iv, genRegInfo(r)))))
 		}
 		fileID := r.U32()
-		var reqs []uint32
+		var reqs, kids []uint32
+		parentOf := map[uint32]uint32{}
 		steps := 6 + r.Intn(14)
 		for s := 0; s < steps; s++ {
 			var bodyb []byte
@@ -275,28 +276,106 @@ func runC01(c *Ctx) {
 				if r.Chance(1, 10) {
 					fileID = r.U32()
 				}
+			case kind == 12 && len(ids) > 0 && r.Chance(1, 2): // several downloads open at once, written and closed in any order
+				id := gen.Pick(r, ids)
+				k := w.keys[id]
+				req := r.U32()
+				reqs = append(reqs, req)
+				w.line(c, fmt.Sprintf("issue %08x %d", id, req))
+				nf := 2 + r.Intn(3)
+				var fids []uint32
+				for j := 0; j < nf; j++ {
+					fids = append(fids, r.U32())
+				}
+				var pk []dpkg
+				for _, f := range fids {
+					if r.Bool() {
+						pk = append(pk, dpkg{cmd: agent.COMMAND_FS, req: req, body: body(fI(2), fI(0), fI(f), fQ(uint64(r.Intn(1000))), fW(genName(r)))})
+					} else {
+						pk = append(pk, dpkg{cmd: agent.BEACON_OUTPUT, req: req, body: body(fI(agent.CALLBACK_FILE), fY(append(append(be32b(f), be32b(uint32(r.Intn(900)))...), []byte(genName(r))...)))})
+					}
+				}
+				w.line(c, fmt.Sprintf("req - %s %s", svc, hx(demonRequest(id, k[0], k[1], pk))))
+				c.Count("downloads.churn")
+				for j := 0; j < nf+2; j++ { // closes and writes for open, closed and unknown ids, in any order
+					f := gen.Pick(r, fids)
+					var p dpkg
+					switch r.Intn(4) {
+					case 0:
+						p = dpkg{cmd: agent.COMMAND_FS, req: req, body: body(fI(2), fI(1), fI(f), fY(r.Bytes(r.Intn(20))))}
+					case 1:
+						p = dpkg{cmd: agent.BEACON_OUTPUT, req: req, body: body(fI(agent.CALLBACK_FILE_CLOSE), fY(be32b(f)))}
+					case 2:
+						p = dpkg{cmd: agent.BEACON_OUTPUT, req: req, body: body(fI(agent.CALLBACK_FILE_WRITE), fY(append(be32b(f), r.Bytes(r.Intn(20))...)))}
+					default:
+						// mode 2 completes the request: issue a fresh one for what follows
+						p = dpkg{cmd: agent.COMMAND_FS, req: req, body: body(fI(2), fI(2), fI(f), fI(uint32(r.Intn(2))))}
+						w.line(c, fmt.Sprintf("req - %s %s", svc, hx(demonRequest(id, k[0], k[1], []dpkg{p}))))
+						req = r.U32()
+						reqs = append(reqs, req)
+						w.line(c, fmt.Sprintf("issue %08x %d", id, req))
+						continue
+					}
+					w.line(c, fmt.Sprintf("req - %s %s", svc, hx(demonRequest(id, k[0], k[1], []dpkg{p}))))
+				}
+				continue
 			case kind < 14 && len(ids) > 0: // pivot traffic: SMB connect with inner registration (valid or not), relayed packages
 				id := gen.Pick(r, ids)
 				k := w.keys[id]
 				req := r.U32()
 				reqs = append(reqs, req)
 				cid := r.U32() | 1
+				probe := uint32(0)
 				ckey, civ := r.Bytes(32), r.Bytes(16)
 				inner := initPackage(cid, cid, ckey, civ, genRegInfo(r))
-				if r.Chance(1, 2) {
+				switch {
+				case r.Chance(1, 3): // a connect that names an agent that exists already: the sender itself, an ancestor, anybody
+					all := append(append([]uint32{}, ids...), kids...)
+					cid = gen.Pick(r, all)
+					inner = initPackage(cid, cid, r.Bytes(32), r.Bytes(16), genRegInfo(r))
+					c.Count("pivot.connect.existing")
+				case r.Chance(1, 2):
 					inner = mutate(r, inner) // a failing inner registration
 					c.Count("pivot.connect.bad-inner")
-				} else {
+				default:
 					c.Count("pivot.connect")
 					w.keys[cid] = [2][]byte{ckey, civ}
+					kids = append(kids, cid)
+					parentOf[cid] = id
 				}
 				pb := body(fI(agent.DEMON_PIVOT_SMB_CONNECT), fI(1), fY(inner))
-				if r.Chance(1, 4) {
-					relay := demonRequest(cid, ckey, civ, []dpkg{{cmd: agent.COMMAND_OUTPUT, req: r.U32(), body: body(fS("x"))}})
+				if len(kids) > 0 && r.Chance(1, 2) {
+					// relayed through a child: output, or the child reporting a connect of its own (new, existing, its own parent);
+					// the connect built above goes out first
+					w.line(c, fmt.Sprintf("req - %s %s", svc, hx(demonRequest(id, k[0], k[1], []dpkg{{cmd: agent.COMMAND_PIVOT, req: req, body: pb}}))))
+					kid := gen.Pick(r, kids)
+					kk := w.keys[kid]
+					id = parentOf[kid]
+					k = w.keys[id]
+					rp := dpkg{cmd: agent.COMMAND_OUTPUT, req: r.U32(), body: body(fS("x"))}
+					if r.Bool() {
+						if r.Bool() { // the child names its own parent, or itself: the graph must stay a forest
+							anc := gen.Pick(r, []uint32{id, kid})
+							pb = body(fI(agent.DEMON_PIVOT_SMB_CONNECT), fI(1), fY(initPackage(anc, anc, r.Bytes(32), r.Bytes(16), genRegInfo(r))))
+							probe = anc
+							c.Count("pivot.command.connect.ancestor")
+						}
+						rp = dpkg{cmd: agent.COMMAND_PIVOT, req: r.U32(), body: pb}
+						c.Count("pivot.command.connect")
+					}
+					relay := demonRequest(kid, kk[0], kk[1], []dpkg{rp})
 					pb = body(fI(agent.DEMON_PIVOT_SMB_COMMAND), fY(relay))
 					c.Count("pivot.command")
 				}
 				bodyb = demonRequest(id, k[0], k[1], []dpkg{{cmd: agent.COMMAND_PIVOT, req: req, body: pb}})
+				if probe != 0 && len(ids) > 1 {
+					// afterwards another session reports a connect that names the same agent: walks over the graph must still end
+					w.line(c, fmt.Sprintf("req - %s %s", svc, hx(bodyb)))
+					other := gen.Pick(r, ids)
+					ok := w.keys[other]
+					bodyb = demonRequest(other, ok[0], ok[1], []dpkg{{cmd: agent.COMMAND_PIVOT, req: r.U32(),
+						body: body(fI(agent.DEMON_PIVOT_SMB_CONNECT), fI(1), fY(initPackage(probe, probe, r.Bytes(32), r.Bytes(16), genRegInfo(r))))}})
+				}
 			case kind < 16: // registration attempts, valid and corrupted
 				id := r.U32()
 				bodyb = initPackage(id, id, r.Bytes(32), r.Bytes(16), genRegInfo(r))
